@@ -353,7 +353,11 @@ namespace util {
 		{
 			int r=0;
 			if(output_stream_) {
-				if(write()!=0)
+				// after a failed flush the put area still holds the data that could not be delivered:
+				// do not convert it a second time into a sink that may accept writes again
+				if(output_stream_->fail())
+					r=-1;
+				else if(write()!=0)
 					r=-1;
 				std::ios_base::iostate st = output_stream_->rdstate();
 				output_stream_->rdbuf(output_);	// rdbuf(sb) clears the error state
